@@ -175,7 +175,7 @@ def run(ctx):
     t = Tally(ctx, "B-15 totality, strict <=> warning, normal form on mutated texts and edit histories",
               "well-formed texts mutated by 1-3 insert / delete / duplicate steps with lines from a pool of %d (headers good and bad, "
               "trailers good and bad, editor mode lines, old-format markers, comments, junk, blanks), allow_empty_author on/off; "
-              "plus histories of 1-4 editing calls on parsed or empty changelogs; non-trivial = distinct mutated texts that "
+              "plus histories of 1-4 editing calls on parsed or empty changelogs (incl. version assignments the library refuses and edits of a Version object it handed out); non-trivial = distinct mutated texts that "
               "produce a warning, and distinct histories" % len(POOL), "%d texts" % rounds)
     for i in range(rounds):
         text, comps = gen_changelog(rng, max_blocks=2)
@@ -232,7 +232,47 @@ def run(ctx):
                 cl = real.Changelog(text)
                 ops = [["Changelog(well-formed text)"]]
             for _ in range(rng.randint(1, 4)):
-                op = rng.choice(["new_block", "add_change", "author", "date", "distributions", "urgency", "version", "package"])
+                op = rng.choice(["new_block", "add_change", "author", "date", "distributions", "urgency", "version", "package",
+                                 "refused version", "edit returned version"])
+                if op in ("refused version", "edit returned version") and len(cl) > 0:
+                    try:
+                        before_text = str(cl)
+                    except real.ChangelogCreateError:
+                        continue        # a block without author / date cannot be written yet: nothing to compare with
+                    try:
+                        if op == "refused version":
+                            # a version the library refuses: ValueError, and the changelog is exactly what it was
+                            bad_version = rng.choice(["1.0-2 (unstable)", "1 2", "a:b:c d", ""])
+                            ops.append(["version (refused)", bad_version])
+                            try:
+                                cl.version = bad_version
+                                refused = False
+                            except ValueError:
+                                refused = True
+                            if not refused:
+                                continue        # taken: no statement here (the normal-form check below still applies)
+                        else:
+                            # a Version object handed out by the changelog is the caller's: editing it does not edit the changelog
+                            ops.append(["edit the Version object returned by .version"])
+                            v_ = cl.version
+                            try:
+                                v_.debian_revision = "99edited"
+                            except ValueError:
+                                pass
+                    except Exception as e:
+                        t.failed("editing call raised %r" % (e,), operations=ops)
+                        break
+                    if str(cl) != before_text:
+                        t.failed("a refused assignment / an edit of a returned object changed the changelog", operations=ops,
+                                 before=before_text, after=str(cl))
+                        break
+                    if str(cl.version) != str(real.Changelog(before_text).version):
+                        t.failed("the changelog exposes another version than it writes", operations=ops, exposed=str(cl.version),
+                                 written=before_text.split("\n")[0])
+                        break
+                    continue
+                elif op in ("refused version", "edit returned version"):
+                    continue
                 try:
                     if rng.random() < 0.5 and len(cl) > 0:
                         # reading must not change what a later assignment does (cached derived values ...)
